@@ -7,6 +7,7 @@ use crate::libapi::{self as lib, Out};
 use crate::refimpl::*;
 use crate::replay::prg;
 use bls12_381_plus::{G1Affine, G2Affine, Scalar};
+use group::Curve;
 use serde_json::{json, Value};
 use std::collections::BTreeMap;
 use zkryptium::bbsplus::ciphersuites::Bls12381Sha256;
@@ -137,6 +138,33 @@ fn g2_class(cl: &str, seed: u64) -> Vec<u8> {
         _ => panic!("class {cl}"),
     }
 }
+/// uncompressed G2 encodings (public-key coordinates) of the content classes
+fn g2u_class(cl: &str, seed: u64) -> Vec<u8> {
+    match cl {
+        "identity" => {
+            let mut v = vec![0u8; 192];
+            v[0] = 0x40;
+            v
+        }
+        "badflags" => {
+            let mut v = (bls12_381_plus::G2Projective::GENERATOR * Scalar::from(seed + 5)).to_affine().to_uncompressed().to_vec();
+            v[0] |= 0x80;
+            v
+        }
+        "offcurve" => {
+            let mut v = (bls12_381_plus::G2Projective::GENERATOR * Scalar::from(seed + 6)).to_affine().to_uncompressed().to_vec();
+            v[191] ^= 1; // y altered: (x, y') is not on the curve
+            v
+        }
+        "nosubgroup" => {
+            let c = g2_class("nosubgroup", seed);
+            let arr: [u8; 96] = c.try_into().unwrap();
+            G2Affine::from_compressed_unchecked(&arr).unwrap().to_uncompressed().to_vec()
+        }
+        _ => panic!("class {cl}"),
+    }
+}
+
 fn sc_class(cl: &str) -> Vec<u8> {
     match cl {
         "zero" => vec![0u8; 32],
@@ -164,6 +192,7 @@ fn flen(k: &str) -> usize {
         "pt" => 48,
         "sc" => 32,
         "pk" => 96,
+        "pku" => 192,
         _ => panic!(),
     }
 }
@@ -192,6 +221,16 @@ impl Fix {
                 lib::proof_gen(Suite::Sha, &self.pk, &sig, &None, &None, &m, &None, None).ok().unwrap()
             }
             "commitment" => lib::commit(Suite::Sha, &Some(self.msgs[..n].to_vec()), None).ok().unwrap().0,
+            "zkpok" => self.honest("commitment", n)[48..].to_vec(),
+            "pk_coords" => {
+                let pk = self.pk.clone();
+                lib::guard(None, move || {
+                    let (x, y) = BBSplusPublicKey::from_bytes(&pk)?.to_coordinates();
+                    Ok([&x[..], &y[..]].concat())
+                })
+                .ok()
+                .unwrap()
+            }
             _ => panic!("codec {codec}"),
         };
         self.honest.insert((codec.to_string(), n), v.clone());
@@ -217,6 +256,19 @@ fn decode_with_lib(codec: &str, b: &[u8], fx: &Fix) -> Vec<(String, Out<Vec<u8>>
     let b = b.to_vec();
     match codec {
         "public_key" => vec![("BBSplusPublicKey::from_bytes".into(), lib::guard(None, || Ok(BBSplusPublicKey::from_bytes(&b)?.to_bytes().to_vec())))],
+        "pk_coords" => {
+            if b.len() != 192 {
+                return vec![]; // the API takes two [u8; 96]: other lengths cannot be expressed
+            }
+            vec![("BBSplusPublicKey::from_coordinates".into(), lib::guard(None, || {
+                let x: [u8; 96] = b[..96].try_into().unwrap();
+                let y: [u8; 96] = b[96..].try_into().unwrap();
+                let p = BBSplusPublicKey::from_coordinates(&x, &y)?;
+                let (x2, y2) = p.to_coordinates();
+                Ok([&x2[..], &y2[..]].concat())
+            }))]
+        }
+        "zkpok" => vec![("BBSplusZKPoK::from_bytes".into(), lib::guard(None, || Ok(BBSplusZKPoK::from_bytes(&b)?.to_bytes())))],
         "secret_key" => vec![("BBSplusSecretKey::from_bytes".into(), lib::guard(None, || Ok(BBSplusSecretKey::from_bytes(&b)?.to_bytes().to_vec())))],
         "blind_factor" => {
             if b.len() != 32 {
@@ -248,7 +300,7 @@ fn decode_with_lib(codec: &str, b: &[u8], fx: &Fix) -> Vec<(String, Out<Vec<u8>>
             let b3 = b.clone();
             vec![
                 ("Commitment::from_bytes".into(), lib::guard(None, || Ok(Commitment::<BBSplus<CS>>::from_bytes(&b)?.to_bytes()))),
-                ("BBSplusZKPoK::from_bytes(tail)".into(), lib::guard(None, move || {
+                ("tail:BBSplusZKPoK::from_bytes".into(), lib::guard(None, move || {
                     if b2.len() < 48 {
                         return Err(zkryptium::errors::Error::InvalidCommitmentProof);
                     }
@@ -289,6 +341,7 @@ pub fn run(r: &Ref, cases: &[Value], seed: u64, flip_stride: usize) -> CReport {
                         let rep_bytes = match k.as_str() {
                             "pt" => g1_class(cl, seed),
                             "pk" => g2_class(cl, seed),
+                            "pku" => g2u_class(cl, seed),
                             _ => sc_class(cl),
                         };
                         b[off..off + flen(k)].copy_from_slice(&rep_bytes);
@@ -312,7 +365,7 @@ pub fn run(r: &Ref, cases: &[Value], seed: u64, flip_stride: usize) -> CReport {
                         mm(&mut rep, "C08", c, format!("{name} panicked"), exp, got.detail(), &b);
                         continue;
                     }
-                    if name.starts_with("deserialize_and_validate") || name.starts_with("BBSplusZKPoK") {
+                    if name.starts_with("deserialize_and_validate") || name.starts_with("tail:") {
                         continue; // totality only
                     }
                     rep.tick("C09");
@@ -401,7 +454,7 @@ pub fn run(r: &Ref, cases: &[Value], seed: u64, flip_stride: usize) -> CReport {
     }
     // C09 (b): single-bit flips of every honest encoding: whatever still decodes re-encodes to itself
     if flip_stride > 0 {
-        for (codec, n) in [("public_key", 0usize), ("secret_key", 0), ("blind_factor", 0), ("signature", 0), ("proof", 0), ("proof", 2), ("commitment", 0), ("commitment", 2)] {
+        for (codec, n) in [("public_key", 0usize), ("pk_coords", 0), ("zkpok", 1), ("secret_key", 0), ("blind_factor", 0), ("signature", 0), ("proof", 0), ("proof", 2), ("commitment", 0), ("commitment", 2)] {
             let h = fx.honest(codec, n);
             let mut k = (seed as usize) % flip_stride;
             for byte in 0..h.len() {
